@@ -420,6 +420,30 @@ def big_rows(ctx: Ctx):
             for comp in range(d):
                 for _ in range(1 if quick else 6):
                     pts.append(rand_point(d, band=(comp, lo, hi)))
+        # y just above / below (p - 1) / 2 - where the sign flag flips (the relevant coordinate of y: its imaginary part,
+        # and the real part when the imaginary part is zero) - and x with a zero coordinate
+        from .grouptrace import points_with_y
+        half = (p - 1) // 2
+        near = [half + k for k in (1, 2, 3, 5, 1000)] + [half - k for k in (0, 1, 7)] + [half + 2 ** 300, half + 2 ** 330]
+        if d == 1:
+            ys = [(v,) for v in near]
+        else:
+            ys = [(rng.randrange(p), v) for v in near] + [(v, 0) for v in near[:4]]
+        got = points_with_y(p, rng, ys, d)
+        rng.shuffle(got)
+        for x_, y_ in got[:(4 if quick else 16)]:
+            pts.append(((F(x_[0]), F(y_[0]), F.one()) if d == 1 else (F(list(x_)), F(list(y_)), F.one())))
+        if d == 2:
+            cnt = 0
+            for _ in range(400):
+                t_ = rng.randrange(1, p)
+                x_ = (0, t_) if cnt % 2 == 0 else (t_, 0)
+                y_ = sqrt(rhs(x_, 2), 2)
+                if y_ is not None:
+                    pts.append((F(list(x_)), F(list(y_)), F.one()))
+                    cnt += 1
+                    if cnt >= (4 if quick else 16):
+                        break
         if d == 1:
             pts += [(F(0), F(2), F(1)), (F(0), F(p - 2), F(1)), (F(0), F(2) * F(9), F(9))]     # the order-3 points (0, +-2)
         if d == 2:      # y with zero imaginary / zero real part (the other branch of the sign rule)
